@@ -493,6 +493,8 @@ fn run_history(loc: &mut Local, ctx: &Ctx, cx: &Ctxs, h: &History) {
         Err(_) => return,
     };
     let mut cmd = wrap_command(h.etc, &exe, &["--child".into(), "c18h".into(), spec_path.display().to_string()]);
+    // the child's working directory holds a valid TZif file under a relative name (see `sources`)
+    cmd.current_dir(&ctx.work_dir);
     match &sources[h.initial].value {
         Some(v) => {
             cmd.env("TZ", v);
@@ -732,6 +734,10 @@ pub fn run(ctx: &Ctx) -> Outcome {
     let fa = fixed_zone_file(wd, "zone-a.tzif", 3 * 3600 + 7 * 60 + 11);
     let fb = fixed_zone_file(wd, "zone-b.tzif", -(7 * 3600 + 13 * 60 + 29));
     let fc = fixed_zone_file(wd, "zone-c.tzif", 11 * 3600 + 2 * 60 + 3);
+    let _ = std::fs::create_dir_all(wd.join("vrf-rel"));
+    if fixed_zone_file(&wd.join("vrf-rel"), "zone-d.tzif", -(2 * 3600 + 34 * 60 + 56)).is_none() {
+        rep.harness_error("cannot write the relative zone file");
+    }
     let not_tzif = wd.join("not-a-zone.txt");
     let _ = std::fs::write(&not_tzif, "this is a text file, not TZif data\n");
     let (Some(fa), Some(fb), Some(fc)) = (fa, fb, fc) else {
@@ -752,6 +758,11 @@ pub fn run(ctx: &Ctx) -> Outcome {
         Source { kind: "unreadable", value: Some(":Nowhere/Land".into()), valid: false },
         // the colon form of a rule string names a (non-existent) file: same text, different meaning
         Source { kind: "unreadable", value: Some(":QQQ-9:11:23".into()), valid: false },
+        // a relative name that is in none of the zoneinfo directories but *does* exist below the
+        // child's working directory as a valid TZif file: relative names are relative to the zoneinfo
+        // directories only, so this cannot be read and the fallback applies
+        Source { kind: "unreadable", value: Some("vrf-rel/zone-d.tzif".into()), valid: false },
+        Source { kind: "unreadable", value: Some(":vrf-rel/zone-d.tzif".into()), valid: false },
         Source { kind: "not_tzif", value: Some(not_tzif.display().to_string()), valid: false },
         Source { kind: "garbage", value: Some("this is not a timezone!!".into()), valid: false },
         Source { kind: "garbage", value: Some("EST5EDT,M13.1.0,M11.1.0".into()), valid: false },
